@@ -459,7 +459,8 @@ Theorem grammar_tokenize_end_to_end xpath a fls input :
       exists re, regex_new true xpath (show_a a) fls = Ok re
         /\ (r_nullable re = false ->
             exists l, tok_all (matches (r_prog re) input) input (S (S (S (length input)))) {| t_prev := Some 0; t_ms := st0 |} = Ok l
-                      /\ length l <= length input + 1)
+                      /\ length l <= length input + 1
+                      /\ l = pieces input (scan (matches (r_prog re) input) input (S (S (length input))) 0 st0) 0)
   | _ => True
   end.
 Proof.
@@ -485,9 +486,12 @@ Proof.
   pose proof (fragment_no_panic_no_out prog [] (Facts [] eq_refl) Hun 0 st0 (le_n 0) eq_refl) as NP0.
   destruct (matches prog [] 0 st0) as [s0|s0| |k0] eqn:E0; try contradiction; cbn [mres_bool rbind];
     (eexists; split; [reflexivity|]); cbn [r_nullable r_prog]; intros Hn; [discriminate|].
-  apply (fragment_token_bound prog input (Facts input Hfit) Hfr Hun (Facts [] eq_refl)).
-  - intros s' Es. rewrite E0 in Es. discriminate.
-  - reflexivity.
+  assert (Hnn : forall s', matches prog [] 0 st0 <> MTrue s') by (intros s' Es; rewrite E0 in Es; discriminate).
+  destruct (fragment_token_bound prog input (Facts input Hfit) Hfr Hun (Facts [] eq_refl) Hnn st0 eq_refl) as (l & El & Hl).
+  exists l. split; [exact El|]. split; [exact Hl|].
+  pose proof (fragment_tokenize prog input (Facts input Hfit) Hfr Hun (Facts [] eq_refl) Hnn (S (length input)) 0 st0 eq_refl
+                ltac:(lia) ltac:(lia)) as Et.
+  rewrite El in Et. injection Et as ->. reflexivity.
 Qed.
 
 (* ---------------------------------------------------------------- the verdict through the denotation *)
